@@ -273,7 +273,12 @@ ASSUME JsonSerialize(IOEnv.VERDICT_OUT, [fixed |-> SetToSeq(UnsafePairs({maxn_ru
             st1 = np.minimum(np.floor(pos[:, 0] * p / box).astype(int), p - 1)
             keepm = st1 != 1
             pos, w = pos[keepm].copy(), w[keepm].copy()
+        # the second offset run hands the positions over in the box-centred convention [-L/2, L/2): the periodic wrap is tsc_parallel's job (wrap=True),
+        # and it must happen BEFORE the particles are assigned to stripes
         for o in (0.0, cell / 2):
+            if o:
+                pos = pos.copy()
+                pos[:, 0] = np.where(pos[:, 0] >= box / 2, pos[:, 0] - box, pos[:, 0])
             with warnings.catch_warnings():
                 warnings.simplefilter('ignore')
                 ref = tsc_parallel(pos.copy(), np.zeros((n1d, n1d, n1d), dtype=np.float64), box, weights=w, nthread=1, offset=o)
